@@ -534,14 +534,23 @@ func c07AlphabetWide(in *c07Inst) []string {
 	return evs
 }
 
+// c07PhysicalFull selects the larger physical-reopen alphabet (thorough tier).
+var c07PhysicalFull bool
+
 // c07AlphabetPhysical: small alphabet around a REAL close + reopen of a private pebble
 // database (at most one per path).
 func c07AlphabetPhysical(in *c07Inst) []string {
 	a, b := in.ch[0], in.ch[1]
 	_ = b
-	evs := []string{"ap:A:m1", "ap:A:m5", "apb:A:m2+m3", "ap:B:m1"}
+	evs := []string{"ap:A:m1", "apb:A:m2+m3"}
+	if c07PhysicalFull {
+		evs = append(evs, "ap:A:m5", "ap:B:m1")
+	}
 	evs = append(evs, in.truncEvents(0, "1")...)
-	evs = append(evs, in.trimEvents(0, "1", "all", "limover", "lim")...)
+	evs = append(evs, in.trimEvents(0, "1", "all", "limover")...)
+	if c07PhysicalFull {
+		evs = append(evs, in.trimEvents(0, "lim")...)
+	}
 	if (a.leo > 0 || b.leo > 0) && !in.private {
 		evs = append(evs, "reopen!")
 	}
@@ -1302,10 +1311,11 @@ func TestVerifC07(t *testing.T) {
 		bound map[string]any
 	}
 	th := r.Thorough()
+	c07PhysicalFull = th
 	systems := []sys{
 		{&c07Cfg{"store-main", c07AlphabetQuick}, ev.Pick(r, 4, 5), true, map[string]any{"alphabet": "quick (<=19 events/state)"}},
 		{&c07Cfg{"store-wide", c07AlphabetWide}, ev.Pick(r, 3, 4), true, map[string]any{"alphabet": "wide (<=41 events/state)"}},
-		{&c07Cfg{"store-physical-reopen", c07AlphabetPhysical}, ev.Pick(r, 5, 6), true, map[string]any{"alphabet": "physical (<=10 events/state), real close+open of a private pebble database, at most once per path"}},
+		{&c07Cfg{"store-physical-reopen", c07AlphabetPhysical}, ev.Pick(r, 5, 5), true, map[string]any{"alphabet": "physical (quick <=7, thorough <=10 events/state; includes the bounded trim through a boundary beyond the log end), real close+open of a private pebble database, at most once per path"}},
 	}
 	_ = th
 	var keys []string
